@@ -834,10 +834,10 @@ func (s *Stream) parseFunctionArgs(funcExpr string, data map[string]any) ([]any,
 		arg = strings.TrimSpace(arg)
 
 		// If parameter is string constant (enclosed in quotes)
-		if strings.HasPrefix(arg, "'") && strings.HasSuffix(arg, "'") {
-			args[i] = strings.Trim(arg, "'")
-		} else if strings.HasPrefix(arg, "\"") && strings.HasSuffix(arg, "\"") {
-			args[i] = strings.Trim(arg, "\"")
+		if isOneQuotedLiteral(arg, '\'') {
+			args[i] = arg[1 : len(arg)-1]
+		} else if isOneQuotedLiteral(arg, '"') {
+			args[i] = arg[1 : len(arg)-1]
 		} else if strings.Contains(arg, "(") {
 			// If parameter contains function call, execute recursively
 			result, err := s.executeFunction(arg, data)
@@ -880,6 +880,12 @@ func (s *Stream) parseFunctionArgs(funcExpr string, data map[string]any) ([]any,
 	}
 
 	return args, nil
+}
+
+// isOneQuotedLiteral reports whether s is a single literal in quotes q: it starts and ends with q and q does not occur
+// in between ('END' == 'abc' starts and ends with a quote but is a comparison).
+func isOneQuotedLiteral(s string, q byte) bool {
+	return len(s) >= 2 && s[0] == q && s[len(s)-1] == q && strings.IndexByte(s[1:len(s)-1], q) < 0
 }
 
 // isColumnReference reports whether s has the shape of a column name or nested path (a, d.x, arr[1], m['k']).
